@@ -3,7 +3,7 @@
    SC62015.get_instruction_info on every run); execution = Model/Lift.v exec_decoded. *)
 From Coq Require Import ZArith NArith List Bool.
 From BE Require Import Model.TableTypes Gen.Tables Model.Regs Model.Decode Model.IL Model.Lift Model.Static Model.Spec
-  Proofs.ExecProofs Proofs.BranchProofs.
+  Model.Irq Proofs.ExecProofs Proofs.BranchProofs Proofs.AccessProofs Proofs.IrqProofs Proofs.CallProofs.
 Import ListNotations.
 Open Scope Z_scope.
 
@@ -57,6 +57,77 @@ Theorem C05_opcodes_are_the_tables :
     end) jp16_opcodes = true.
 Proof. exact (conj jr_table_check jp16_table_check). Qed.
 Print Assumptions C05_opcodes_are_the_tables.
+
+(* far call: CALLF lmn leaves exactly the 20-bit address of the next instruction, little-endian, in the three bytes below
+   the old S, moves S down by three, jumps to lmn and touches no other register or byte - every well-formed state with
+   three bytes of stack, every target, every address below the top of the address space *)
+Theorem C05_callf_frame : forall s lo mid hi addr,
+  wf_state s -> 3 <= getr s gS -> 0 <= addr -> addr + 4 < 1048576 -> Z.of_N (imm20 lo mid hi) < 1048576 ->
+  exists s', exec_decoded (mk_instr 5 [OImm20 lo mid hi] 4) 5 addr s = XOk s' /\
+    wf_state s' /\
+    getr s' gPC = Z.of_N (imm20 lo mid hi) /\ getr s' gS = getr s gS - 3 /\
+    mem s' (getr s gS - 3) = (addr + 4) mod 256 /\ mem s' (getr s gS - 2) = ((addr + 4) / 256) mod 256 /\
+    mem s' (getr s gS - 1) = ((addr + 4) / 65536) mod 256 /\
+    (forall a, ~ (getr s gS - 3 <= a < getr s gS) -> mem s' a = mem s a) /\
+    (forall r, r <> gS -> r <> gPC -> getr s' r = getr s r).
+Proof. exact callf_exec. Qed.
+Print Assumptions C05_callf_frame.
+
+(* CALLF ... RETF: whatever the callee does, if it hands back a well-formed state with S at the frame and the three frame
+   bytes intact (a stack-neutral body), RETF - executed anywhere - resumes at the instruction after the CALLF with the
+   caller's S, and itself changes no memory and no other register *)
+Theorem C05_callf_retf_inverse : forall s lo mid hi addr s1,
+  wf_state s -> 3 <= getr s gS -> 0 <= addr -> addr + 4 < 1048576 -> Z.of_N (imm20 lo mid hi) < 1048576 ->
+  exec_decoded (mk_instr 5 [OImm20 lo mid hi] 4) 5 addr s = XOk s1 ->
+  forall t raddr, wf_state t -> getr t gS = getr s1 gS ->
+    (forall a, getr s gS - 3 <= a < getr s gS -> mem t a = mem s1 a) ->
+    0 <= raddr -> raddr + 1 < 1048576 ->
+    exists t', exec_decoded (mk_instr 7 [] 1) 7 raddr t = XOk t' /\
+      getr t' gPC = addr + 4 /\ getr t' gS = getr s gS /\ (forall a, mem t' a = mem t a) /\
+      (forall r, r <> gS -> r <> gPC -> getr t' r = getr t r).
+Proof. exact callf_retf_inverse. Qed.
+Print Assumptions C05_callf_retf_inverse.
+
+(* near call: CALL mn pushes the low 16 bits of the return address and jumps inside the page of the instruction;
+   CALL ... RET is an inverse under the guard that the RET executes in the page of the return address
+   (the other case is refuted in Props/C05_refuted.v - the recorded page-edge finding) *)
+Theorem C05_call_frame : forall s v addr,
+  wf_state s -> 2 <= getr s gS -> 0 <= addr -> addr + 3 < 1048576 -> Z.of_N v < 65536 ->
+  exists s', exec_decoded (mk_instr 4 [OImm16 v] 3) 4 addr s = XOk s' /\
+    wf_state s' /\
+    getr s' gPC = near_target addr v /\ getr s' gS = getr s gS - 2 /\
+    mem s' (getr s gS - 2) = (addr + 3) mod 256 /\ mem s' (getr s gS - 1) = ((addr + 3) / 256) mod 256 /\
+    (forall a, ~ (getr s gS - 2 <= a < getr s gS) -> mem s' a = mem s a) /\
+    (forall r, r <> gS -> r <> gPC -> getr s' r = getr s r).
+Proof. exact call_exec. Qed.
+Print Assumptions C05_call_frame.
+
+Theorem C05_call_ret_inverse_partial : forall s v addr s1,
+  wf_state s -> 2 <= getr s gS -> 0 <= addr -> addr + 3 < 1048576 -> Z.of_N v < 65536 ->
+  exec_decoded (mk_instr 4 [OImm16 v] 3) 4 addr s = XOk s1 ->
+  forall t raddr, wf_state t -> getr t gS = getr s1 gS ->
+    (forall a, getr s gS - 2 <= a < getr s gS -> mem t a = mem s1 a) ->
+    0 <= raddr -> raddr + 1 < 1048576 -> (raddr + 1) / 65536 = (addr + 3) / 65536 ->
+    exists t', exec_decoded (mk_instr 6 [] 1) 6 raddr t = XOk t' /\
+      getr t' gPC = addr + 3 /\ getr t' gS = getr s gS /\ (forall a, mem t' a = mem t a) /\
+      (forall r, r <> gS -> r <> gPC -> getr t' r = getr t r).
+Proof. exact call_ret_inverse. Qed.
+Print Assumptions C05_call_ret_inverse_partial.
+
+(* the opcodes those four theorems name are the CALL / CALLF / RET / RETF entries of the regenerated table *)
+Theorem C05_call_opcodes_are_the_tables :
+  d_cls (entry_of 4) = I_CALL /\ d_cls (entry_of 5) = I_CALL /\ d_cls (entry_of 6) = I_RET /\ d_cls (entry_of 7) = I_RETF.
+Proof. exact call_analyze_tables. Qed.
+Print Assumptions C05_call_opcodes_are_the_tables.
+
+(* non-vacuity of the call theorems: a concrete state meets the hypotheses (S = 0x1000, byte memory) *)
+Example C05_call_hypotheses_satisfiable : wf_state edge_state /\ 3 <= getr edge_state gS.
+Proof.
+  split; [split|].
+  - unfold regs_wf. vm_compute. repeat split; discriminate || reflexivity.
+  - intros a. cbn. split; [apply Z.le_refl | reflexivity].
+  - vm_compute. discriminate.
+Qed.
 
 (* non-vacuity: JRNZ -5 at 0x2FFFE with Z clear goes to 0x2FFFB; with Z set falls through into the next page *)
 Example C05_example :
